@@ -14,8 +14,7 @@ global layout TagHeader is size == 8, align == 8;
 impl Header for TagHeader {
     open spec fn declared_total(&self) -> int { self.size as int }
     proof fn lemma_hdr_layout(&self) {}
-//@extract multiboot2/src/tag.rs :: impl Header for TagHeader :: fn payload_len
-//@  novis
+//@extractall multiboot2/src/tag.rs :: impl Header for TagHeader
 //@end
 }
 
@@ -74,8 +73,7 @@ impl BootInformationHeader {
 impl Header for BootInformationHeader {
     open spec fn declared_total(&self) -> int { self.total_size as int }
     proof fn lemma_hdr_layout(&self) {}
-//@extract multiboot2/src/boot_information.rs :: impl Header for BootInformationHeader :: fn payload_len
-//@  novis
+//@extractall multiboot2/src/boot_information.rs :: impl Header for BootInformationHeader
 //@end
 }
 
